@@ -15,6 +15,13 @@ namespace AranyaV.Facts
 /-- an item of the base iterator: `Result<Fact, StorageError>` (the error payload is irrelevant) -/
 abbrev Item := Except Unit (Key × Val)
 
+instance : DecidableEq Item := fun a b =>
+  match a, b with
+  | .ok x, .ok y => if h : x = y then isTrue (by rw [h]) else isFalse (fun e => by cases e; exact h rfl)
+  | .error _, .error _ => isTrue rfl
+  | .ok _, .error _ => isFalse (fun e => by cases e)
+  | .error _, .ok _ => isFalse (fun e => by cases e)
+
 /-- `emit` of an overlay slot: a tombstone yields nothing -/
 def emitSlot (k : Key) (s : Slot) : List Item :=
   match s with
